@@ -449,6 +449,26 @@ int zsim_main(int argc, char** argv) {
     printf("M %s\n", s.str().c_str());
     return 0;
   }
+  if (mode == "minf") {  // minimise the plan of a replay file (e.g. a generated plan with a knob changed by hand)
+    if (argc < 4) return 3;
+    std::string text; Json j; Plan p;
+    if (!read_file(argv[3], text) || !Json::parse(text, j) || !j.get("plan") || !Plan::from_json(*j.get("plan"), p)) { fprintf(stderr, "cannot read %s\n", argv[3]); return 3; }
+    std::string out = argval(argc, argv, "--out", "/dev/stdout");
+    Result r0 = run_forked(w, p, tier, false);
+    if (r0.ok) { printf("M {\"reproduced\":false}\n"); return 2; }
+    Minimizer m{w, tier, r0.cls, 0, atoi(argval(argc, argv, "--max-tests", "500")), wall() + atof(argval(argc, argv, "--max-time", "90"))};
+    size_t before = p.ops.size();
+    Plan q = m.ddmin(p); q = m.simplify_args(q); q = m.ddmin(q);
+    Result r1 = run_forked(w, q, tier, false);
+    if (r1.ok || r1.cls != r0.cls) { q = p; r1 = r0; }
+    Json f = Json::obj();
+    f.set("property", w->property()); f.set("world", w->name()); f.set("tier", tier); f.set("class", r1.cls); f.set("detail", r1.detail);
+    char hb[32]; snprintf(hb, sizeof hb, "%016llx", (unsigned long long)r1.hash);
+    f.set("hash", hb); f.set("idx", (long long)j.geti("idx")); f.set("ops_before", (long long)before); f.set("ops_after", (long long)q.ops.size()); f.set("plan", q.to_json());
+    write_file(out, f.str() + "\n");
+    printf("M {\"reproduced\":true,\"cls\":\"%s\",\"ops_before\":%zu,\"ops_after\":%zu}\n", r1.cls.c_str(), before, q.ops.size());
+    return 0;
+  }
   if (mode == "replay") {
     if (argc < 4) return 3;
     std::string text; Json j; Plan p;
